@@ -1,0 +1,17 @@
+//go:build verif
+
+package factory
+
+import (
+	"context"
+
+	"github.com/projecteru2/core/engine"
+	"github.com/projecteru2/core/types"
+)
+
+// VerifRegisterEngine registers an engine factory for an endpoint prefix (verification harness only,
+// build tag verif): the harness plugs a stateful in-memory engine in under "verif://".
+// Must be called before any engine is requested.
+func VerifRegisterEngine(prefix string, f func(ctx context.Context, config types.Config, nodename, endpoint, ca, cert, key string) (engine.API, error)) {
+	engines[prefix] = f
+}
